@@ -82,3 +82,33 @@ fix_extent_carry (mpz_ptr w, mpz_srcptr u)
     }
   SIZ (w) = n;
 }
+
+/* R-CONSTSRC positive: normalises the input in place "to save a copy" - with distinct variables u is changed */
+void
+fix_constsrc_scratch (mpz_ptr w, mpz_srcptr u)
+{
+  mp_size_t n = ABSIZ (u);
+  mp_ptr up = PTR (u);
+  mp_ptr wp;
+  if (n == 0)
+    {
+      SIZ (w) = 0;
+      return;
+    }
+  mpn_rshift (up, up, n, 1);
+  wp = MPZ_REALLOC (w, n);
+  up = PTR (u);
+  MPN_COPY (wp, up, n);
+  SIZ (w) = n;
+}
+
+/* R-CONSTSRC negative: the same write, but only on the path where u is w */
+void
+fix_constsrc_guarded (mpz_ptr w, mpz_srcptr u)
+{
+  mp_size_t n = ABSIZ (u);
+  mp_ptr up = PTR (u);
+  if (n == 0 || w != u)
+    return;
+  mpn_rshift (up, up, n, 1);
+}
